@@ -151,6 +151,10 @@ impl Prop for C07 {
             cfg.shared_layer_numbers = true;
             cx.count("libraries_with_shared_layer_numbers");
         }
+        // every other library: shapes on different layer numbers may overlap (labels are matched per layer number)
+        if cx.n % 2 == 0 {
+            cfg.cross_layer_overlap = true;
+        }
         // every fifth library: layout views named differently from their cells (GDSII has one name per structure: the cell's is the one
         // references use, so it is the one that has to survive)
         if cx.n % 5 == 3 {
